@@ -150,7 +150,8 @@ def judge(case, cli, pathsets):
     if pathsets is None or "err" in pathsets:
         bad.append(("paths-failed", "Metadata::paths failed: %s" % (pathsets or {}).get("msg"), None))
         return bad
-    ps = pathsets["paths"]
+    # '.' components (sources = ["."]) are not significant: the filelist holds canonical paths
+    ps = [dict(p, src=norm_path(p["src"]), dst=norm_path(p["dst"]), map=norm_path(p["map"])) for p in pathsets["paths"]]
     # collision-free
     for fld in ("dst", "map"):
         seen = {}
@@ -251,7 +252,9 @@ def judge(case, cli, pathsets):
 
 
 def norm_path(p):
-    return p.replace("/./", "/")
+    while "/./" in p:
+        p = p.replace("/./", "/")
+    return p
 
 
 def harmless(case, src):
@@ -393,6 +396,10 @@ def run(tier, seed, replay):
         "order theorem: references between listed files acyclic (a rank exists); cyclic projects keep the first-symbol order",
         "path injectivity is per source directory; the same relative path under two source roots collides (known finding)",
         "files holding no module/interface/package/embed (comments, proto-only) are emitted but not listed: outside the statement"]
+    res.coverage["explanation"] = ("theorems over the Gallina model of sort_filelist and of the src->dst/map mapping (coq/Props/C25.v); "
+                                   "the model runs on the exact inputs the real sort_filelist saw (hook dump of every build) and on "
+                                   "Metadata::paths of generated layouts; the property's oracle is evaluated on the generated filelists "
+                                   "and bundles; the two-source-roots collision is a known finding")
     proved = C.prove(res, PID)
 
     ok, bins, log = C.cli_build()
